@@ -30,7 +30,7 @@ var audioBundled = []string{"testpic_2s", "testpic_6s", "testpic_8s", "testpic_a
 	"WAVE/vectors/cfhd_sets/14.985_29.97_59.94/t1/2022-10-17"}
 
 func genCase(t *rapid.T) (Case, *env.Env) {
-	tg := gen.Target(t, assetgen.Opts{ForceAudio: true, Audio: []string{"aac", "aac", "ac3"}, AudioDelta: []int{0, 0, 0, -1, -2, -3, 1, 2, 3, -5, -9}}, 25, audioBundled)
+	tg := gen.Target(t, assetgen.Opts{ForceAudio: true, Audio2: true, Audio: []string{"aac", "aac", "ac3"}, AudioDelta: []int{0, 0, 0, -1, -2, -3, 1, 2, 3, -5, -9}}, 25, audioBundled)
 	e, err := env.Get(tg)
 	if err != nil {
 		t.Fatalf("HARNESS: %v", err)
